@@ -1,0 +1,13 @@
+//go:build verif
+
+package cpumem
+
+import (
+	"github.com/projecteru2/core/store/etcdv3/meta"
+	coretypes "github.com/projecteru2/core/types"
+)
+
+// NewPluginWithStore builds the plugin on a caller-supplied KV (verification harness only).
+func NewPluginWithStore(config coretypes.Config, store meta.KV) *Plugin {
+	return &Plugin{name: name, config: config, store: store}
+}
